@@ -22,8 +22,10 @@ def gen_vectors(ctx, fam, label=None, workers="auto", npa=1, nra=1, simulate=Non
         files = {"shapes.ndjson": "".join(json.dumps({"a": a}) + "\n" for a in shapes)}
     r = ctx.gen("mc/MC_OpenAPIOps", cfg, consts={"Family": '"%s"' % fam, "NPA": npa, "NRA": nra}, files=files,
                 label=label or ("Gen exchanges %s %dx%d%s" % (fam, npa, nra, " (simulate)" if simulate else (" (%d shapes)" % len(shapes) if shapes else ""))),
-                timeout=1500, workers=(1 if simulate else workers), simulate=simulate, depth=(40 if simulate else None))
-    return r.vectors
+                timeout=(7200 if simulate else 1500), workers=(1 if simulate else workers), simulate=simulate, depth=(40 if simulate else None))
+    # (several TLC workers print the states in the order they happen to reach them: what is drawn from the list with the
+    #  seed - the pairs, the packing into designs - must not depend on it)
+    return r.vectors if simulate else sorted(r.vectors, key=core.canon)
 
 
 def gen_xcases(ctx, fam, cases, npa, nra, label=None):
@@ -35,7 +37,7 @@ def gen_xcases(ctx, fam, cases, npa, nra, label=None):
                 files={"xcases.ndjson": text, "devsets.ndjson": json.dumps({"devs": []}) + "\n", "designs.ndjson": ""},
                 label=label or ("Gen given exchanges %s %dx%d (%d)" % (fam, npa, nra, len(cases))), timeout=1500)
     out, seen = [], set()
-    for v in r.vectors:          # (several terminal states per exchange where the mechanism has a choice)
+    for v in sorted(r.vectors, key=core.canon):          # (several terminal states per exchange where the mechanism has a choice)
         k = xkey(v)
         if k not in seen:
             seen.add(k)
